@@ -6,24 +6,48 @@ package blockntfns
 // scheduler against a scripted notification source.
 
 import (
+	"errors"
+
 	"github.com/btcsuite/btcd/wire/v2"
 )
 
 type vpSource struct {
 	ch     chan BlockNtfn
 	height uint32 // current tip: events emitted so far are heights 1..height
+	// raceEmit: the chain grows by this many blocks right after the next
+	// backlog was read (the block manager commits and announces from its own
+	// goroutines while a registration is in progress)
+	raceEmit int
 }
 
 func (s *vpSource) Notifications() <-chan BlockNtfn { return s.ch }
 func (s *vpSource) NotificationsSinceHeight(h uint32) ([]BlockNtfn, uint32, error) {
-	if h == 0 || h >= s.height {
-		return nil, s.height, nil
+	if h > s.height {
+		// like the block manager: a height the chain has not reached is refused
+		return nil, 0, errors.New("vp: request with a height greater than the best height known")
+	}
+	if h == 0 || h == s.height {
+		tip := s.height
+		s.grow()
+		return nil, tip, nil
 	}
 	var out []BlockNtfn
 	for i := h + 1; i <= s.height; i++ {
 		out = append(out, NewBlockConnected(wire.BlockHeader{Nonce: i}, i))
 	}
-	return out, s.height, nil
+	tip := s.height
+	s.grow()
+	return out, tip, nil
+}
+
+// grow: see raceEmit.  The emitting goroutine runs until it blocks (the
+// event is committed, its announcement waits for the handler).
+func (s *vpSource) grow() {
+	for ; s.raceEmit > 0; s.raceEmit-- {
+		go s.emit()
+		vpQuiesce()
+		vpReach("chain-grew-while-a-backlog-was-being-read")
+	}
 }
 
 func (s *vpSource) emit() {
@@ -104,15 +128,27 @@ func VerifH_C11_events() {
 			if len(subs) == 2 {
 				continue
 			}
-			best := uint32(vpRange("bestHeight", 0, int(src.height)))
+			best := vpU32("bestHeight") // any 32-bit height
+			if vpParam("races", 1) == 1 {
+				src.raceEmit = vpRange("chainGrowsDuringRegistration", 0, 1)
+			}
+			h0 := src.height
 			s, err := m.NewSubscription(best)
+			src.raceEmit = 0
+			if best > h0 {
+				// the source refuses the backlog: the registration fails, and this
+				// must not disturb anybody else (the later events show it)
+				vpReach("registration-refused")
+				vpAssert(err != nil && s == nil, "refused-registration-reports-an-error")
+				continue
+			}
 			vpAssert(err == nil, "subscribe-ok")
 			if err != nil {
 				return
 			}
 			v := &vpSub{sub: s}
 			if best == 0 {
-				v.from = src.height + 1
+				v.from = h0 + 1
 			} else {
 				v.from = best + 1
 				vpReach("subscribed-with-backlog")
@@ -313,4 +349,75 @@ func VerifH_C11_reorgEvents() {
 		}
 	}
 	m.Stop()
+}
+
+// VerifH_C11_concurrentSubscribe: a registration (with any backlog height)
+// runs concurrently with chain events emitted by the source, with context
+// switches at synchronisation operations (channel operations, mutexes,
+// atomics) under a preemption bound.  Whatever the interleaving, the new
+// subscriber's backlog followed by its later events is gap-free and the
+// existing subscriber loses nothing.
+func VerifH_C11_concurrentSubscribe() {
+	src := &vpSource{ch: make(chan BlockNtfn)}
+	m := NewSubscriptionManager(src)
+	m.Start()
+	pre := vpRange("preEmitted", 1, 2)
+	src.height = uint32(pre)
+	old, err := m.NewSubscription(0)
+	if err != nil {
+		vpAssert(false, "subscribe-ok")
+		return
+	}
+	vo := &vpSub{sub: old, from: src.height + 1}
+	best := vpU32("bestHeight")
+	vpAssume(best <= uint32(pre))
+	nemit := vpRange("concurrentEvents", 1, vpParam("cevents", 2))
+	var s2 *Subscription
+	var err2 error
+	heightAtReturn := uint32(0)
+	done := make(chan struct{}, 2)
+	vpOpt("preempt", vpParam("preempt", 2))
+	vpOpt("schedall", 1)
+	go func() {
+		s2, err2 = m.NewSubscription(best)
+		heightAtReturn = src.height
+		done <- struct{}{}
+	}()
+	go func() {
+		for k := 0; k < nemit; k++ {
+			src.emit()
+		}
+		done <- struct{}{}
+	}()
+	<-done
+	<-done
+	vpOpt("schedall", 0)
+	vpReach("registration-raced-with-events")
+	vpAssert(err2 == nil && s2 != nil, "concurrent-subscribe-ok")
+	if err2 != nil || s2 == nil {
+		return
+	}
+	vn := &vpSub{sub: s2}
+	vo.drain()
+	vn.drain()
+	vpCheckSub(vo, src.height, false, "old:")
+	// the new subscriber: consecutive heights ending at the tip; with a
+	// backlog request they start right above the requested height, without
+	// one at a height emitted no later than the call returned
+	okSeq := true
+	for i := 1; i < len(vn.got); i++ {
+		if vn.got[i] != vn.got[i-1]+1 {
+			okSeq = false
+		}
+	}
+	vpAssert(okSeq, "new:events-consecutive-none-dropped-or-repeated")
+	if len(vn.got) > 0 {
+		vpAssert(vn.got[len(vn.got)-1] == src.height, "new:events-reach-the-tip")
+		vpAssert(vpImplies(best != 0, vn.got[0] == best+1), "new:backlog-starts-right-above-the-requested-height")
+		vpAssert(vpImplies(best == 0, vn.got[0] > uint32(pre) && vn.got[0] <= heightAtReturn+1), "new:no-backlog-for-height-zero")
+	} else {
+		// nothing delivered: only if nothing was due
+		vpAssert(vpOr(vpAnd(best != 0, best == src.height), vpAnd(best == 0, heightAtReturn == src.height)), "new:nothing-delivered-only-if-nothing-due")
+	}
+	vpAssert(!vn.closed, "new:live-subscription-stays-open")
 }
